@@ -41,9 +41,11 @@ func Spec() *evid.Spec {
 			"One event is delivered to one handler at a time, followed by a barrier. A case is non-trivial if at least one reorg notice, index-change notice or fetch failure was " +
 			"consumed and at least one duty was dispatched; distinct = hash of the delivered event sequence",
 		Assumptions: []string{
-			"an on-time tick is processed while the network clock is inside the tick's slot (the exactly-once obligation is not demanded for ticks the harness delivers one slot late)",
+			"an on-time tick is processed while the network clock is inside the tick's slot; ticks delivered one slot late (never across an epoch boundary; the following slot's tick is skipped as " +
+				"the real slot ticker does) only exercise the slot window: no exactly-once obligation is demanded for them",
 			"obligation (e) is demanded for a duty only if the most recent successful fetch of its epoch / period returned the beacon node's CURRENT assignment version, asked for that validator, " +
-				"happened in an earlier event than the tick, and the validator is active at the tick; a reorg changes the version, so the old assignment stops being demanded",
+				"happened in an earlier event than the tick, and the validator has been active without interruption since that fetch; a reorg changes the version, so the old assignment stops being demanded " +
+				"(nothing is derived from the handlers' flags or from the notices: a handler may keep, replace or re-fetch at will as long as a fetched, still current assignment is executed)",
 			"slot windows as documented at shouldExecute: attester now-slotsPerEpoch..now+1, proposer and sync committee now..now+1",
 			"sync-committee duties are expanded by the handler to one duty per slot of the period for every member",
 		},
@@ -95,7 +97,7 @@ type hctl struct {
 	pIdx     int
 	late     int64 // slot of a tick that is held back (delivered after the next clock advance), -1 none
 	causes   []cause
-	lastTick int64
+	lastTick int64 // clock slot during which this handler last received a tick
 }
 
 type dispKey struct {
@@ -112,6 +114,15 @@ type params struct {
 	PReorg, PSet     float64
 	PFail            float64
 	AllowStale, Late bool
+	Plan             *plan `json:",omitempty"`
+}
+
+// plan: one scripted event at a fixed position relative to the ticks of one slot (systematic part of the workload).
+type plan struct {
+	Slot      uint64
+	AfterTick bool   // after all three handlers ticked that slot (else before any of them)
+	Kind      string // reorg-previous | reorg-current | set-change
+	Fail      int    // fetches of every role that fail afterwards
 }
 
 type run struct {
@@ -137,6 +148,11 @@ type run struct {
 	dead      bool
 	cnt       map[string]int64
 	anomalies int
+
+	// diagnostics only (never part of a verdict): when did the duty store stop holding what the last fetch returned
+	store   *dutystore.Store
+	held    map[*fetchRec]bool
+	dropped map[*fetchRec]cause
 }
 
 func family(t spectypes.BeaconRole) (role, bool) {
@@ -153,7 +169,7 @@ func family(t spectypes.BeaconRole) (role, bool) {
 
 func pick(rng *rand.Rand, v ...float64) float64 { return v[rng.Intn(len(v))] }
 
-func genParams(rng *rand.Rand) params {
+func genParams(rng *rand.Rand, index int) params {
 	var p params
 	p.SPE = []uint64{4, 6, 8, 8}[rng.Intn(4)]
 	p.EPP = uint64(2 + rng.Intn(3))
@@ -185,8 +201,29 @@ func genParams(rng *rand.Rand) params {
 	p.PFail = pick(rng, 0, 0.08, 0.25)
 	p.AllowStale = rng.Intn(4) == 0
 	p.Late = rng.Intn(4) == 0
+	if index < scriptedCases {
+		// systematic part: one notice at every position (before / after the ticks of the slots -2..+2 around an epoch
+		// boundary that is / is not a sync-period boundary), with 0 / 1 failing fetches afterwards, otherwise quiet
+		p.PReorg, p.PSet, p.PFail, p.AllowStale, p.Late = 0, 0, 0, false, false
+		p.Start = e0 * p.SPE // a whole epoch (or two) before the period boundary
+		p.End = p.Start + 4*p.SPE
+		b := boundary * p.SPE // first slot of the new period
+		if (index/30)%2 == 1 {
+			b -= p.SPE // plain epoch boundary inside the old period
+			if b <= p.Start {
+				b += 2 * p.SPE // (e0 = boundary-1): plain epoch boundary inside the new period
+			}
+		}
+		p.Plan = &plan{Slot: uint64(int64(b) + int64((index/6)%5) - 2), AfterTick: (index/3)%2 == 1,
+			Kind: []string{"reorg-previous", "reorg-current", "set-change"}[index%3], Fail: (index / 60) % 2}
+		if len(p.InitiallyActive) == 0 {
+			p.InitiallyActive = append(p.InitiallyActive, p.Own[0])
+		}
+	}
 	return p
 }
+
+const scriptedCases = 120
 
 // ---- event bookkeeping -------------------------------------------------------------------------------------
 
@@ -447,6 +484,77 @@ func (rn *run) addCause(h *hctl, tag string) { // w.mu not held
 	rn.w.mu.Unlock()
 }
 
+
+// probe is DIAGNOSTIC ONLY: after an event of handler h it looks into the duty store (which the harness created) and
+// notes the event after which the store no longer holds everything the latest successful fetch of an epoch / period
+// returned. Verdicts never depend on it; it only names the dropping event in the signature of a missed-duty violation.
+func (rn *run) probe(h *hctl, tag string) { // w.mu held
+	w := rn.w
+	for x, l := range w.hist[h.r] {
+		F := l[len(l)-1]
+		all := true
+		for k := range F.Returned {
+			if !w.ever[k.V] {
+				continue
+			}
+			var present bool
+			switch h.r {
+			case rAtt:
+				present = rn.store.Attester.ValidatorDuty(phase0.Epoch(x), phase0.Slot(k.Slot), k.V) != nil
+			case rProp:
+				present = rn.store.Proposer.ValidatorDuty(phase0.Epoch(x), phase0.Slot(k.Slot), k.V) != nil
+			case rSync:
+				present = rn.store.SyncCommittee.Duty(x, k.V) != nil
+			}
+			if !present {
+				all = false
+				break
+			}
+		}
+		if was, known := rn.held[F]; !known {
+			rn.held[F] = all
+		} else if was && !all {
+			rn.held[F] = false
+			rn.dropped[F] = cause{w.curEvent, tag}
+		}
+	}
+}
+
+// lastNotice: the last notice delivered to h up to (and including) event ev, after event from.
+func lastNotice(h *hctl, from, ev int) string {
+	n := "nothing"
+	for _, c := range h.causes {
+		if c.Event > from && c.Event <= ev && c.Tag != "fetch-fail" && c.Tag != "late-tick" {
+			n = c.Tag
+		}
+	}
+	return n
+}
+
+// whyMissed names, for the signature, the event that made the store drop fetch F and whether a re-fetch failed since.
+func (rn *run) whyMissed(h *hctl, F *fetchRec) string { // w.mu held
+	d, ok := rn.dropped[F]
+	if !ok {
+		if rn.held[F] {
+			return "still-stored"
+		}
+		return "never-stored-completely"
+	}
+	tag := d.Tag
+	if tag == "tick" {
+		tag = "tick-after-" + lastNotice(h, F.Event, d.Event)
+		if d.Event == rn.w.curEvent {
+			tag = "this-" + tag // dropped and missed within one tick: the handler discarded the assignment before executing it
+		}
+	}
+	for _, c := range h.causes {
+		if c.Event >= d.Event && c.Tag == "fetch-fail" {
+			return "dropped-at-" + tag + ":refetch-failed"
+		}
+	}
+	return "dropped-at-" + tag + ":not-refetched"
+}
+
 func (rn *run) deliverTick(h *hctl, s uint64) {
 	if rn.dead {
 		return
@@ -470,6 +578,7 @@ func (rn *run) deliverTick(h *hctl, s uint64) {
 	if !onTime {
 		rn.addCause(h, "late-tick")
 	}
+	h.lastTick = int64(now)
 	h.tk.slot.Store(s)
 	if !sendTick(h.tk.ch) {
 		rn.stuck(h, "a tick")
@@ -481,6 +590,11 @@ func (rn *run) deliverTick(h *hctl, s uint64) {
 	w.mu.Lock()
 	defer w.mu.Unlock()
 	rn.cnt["ticks_"+roleName[h.r]]++
+	if onTime {
+		rn.probe(h, "tick")
+	} else {
+		rn.probe(h, "late-tick")
+	}
 	if w.nFetchFail[h.r] > failBefore {
 		h.causes = append(h.causes, cause{w.curEvent, "fetch-fail"})
 		rn.anomalies++
@@ -504,11 +618,29 @@ func (rn *run) deliverTick(h *hctl, s uint64) {
 		if o.F.X > rn.xOf(h.r, o.F.Now) {
 			ahead = "fetched-ahead"
 		}
-		rn.violation("missed-duty", fmt.Sprintf("%s:%s:%s", roleName[h.r], ahead, rn.causesSince(h, o.F.Event)),
+		rn.violation("missed-duty", fmt.Sprintf("%s:%s:%s", roleName[h.r], ahead, rn.whyMissed(h, o.F)),
 			fmt.Sprintf("%s duty of active validator %d for slot %d was not dispatched at the tick of slot %d (event #%d) although the %s assignment of epoch/period %d "+
 				"(version %d, still the beacon node's current one) had been fetched successfully in event #%d for that validator",
 				o.Key.T.String(), o.Key.V, s, s, w.curEvent, roleName[h.r], o.F.X, o.F.Ver, o.F.Event))
 	}
+}
+
+
+// position classifies where a notice reaches handler h relative to its tick of the current clock slot.
+func (rn *run) position(h *hctl, kind string) string {
+	now := rn.net.now.Load()
+	rel := "before_tick"
+	if h.lastTick == int64(now) {
+		rel = "after_tick"
+	}
+	where := "mid"
+	switch now % rn.p.SPE {
+	case 0:
+		where = "first"
+	case rn.p.SPE - 1:
+		where = "last"
+	}
+	return fmt.Sprintf("pos_%s_%s_%s_slot_of_epoch", kind, rel, where)
 }
 
 func (rn *run) deliverReorg(h *hctl) {
@@ -540,7 +672,9 @@ func (rn *run) deliverReorg(h *hctl) {
 		return
 	}
 	rn.w.mu.Lock()
+	rn.probe(h, tag)
 	rn.cnt["reorg_notices_"+kind]++
+	rn.cnt[rn.position(h, "reorg_"+kind)]++
 	if stale {
 		rn.cnt["reorg_notices_stale"]++
 	}
@@ -563,7 +697,9 @@ func (rn *run) deliverIdx(h *hctl) {
 		return
 	}
 	rn.w.mu.Lock()
+	rn.probe(h, "index-notice")
 	rn.cnt["index_notices"]++
+	rn.cnt[rn.position(h, "index")]++
 	rn.anomalies++
 	rn.w.mu.Unlock()
 }
@@ -591,11 +727,14 @@ func (rn *run) deliverPending(force bool, p float64) {
 
 // ---- world events --------------------------------------------------------------------------------------------
 
-func (rn *run) worldReorg() {
+func (rn *run) worldReorg(mode int) { // mode: -1 random, 0 current root only, 1 previous root too
 	w := rn.w
 	now := rn.net.now.Load()
 	e, p := rn.net.epochOf(now), rn.net.periodOf(now)
 	deep := rn.rng.Intn(2) == 0
+	if mode >= 0 {
+		deep = mode == 1
+	}
 	both := rn.rng.Intn(2) == 0
 	syncToo := rn.rng.Intn(2) == 0
 	var line string
@@ -637,7 +776,7 @@ func (rn *run) worldReorg() {
 	w.mu.Unlock()
 }
 
-func (rn *run) worldSetChange() {
+func (rn *run) worldSetChange(scripted bool) {
 	w := rn.w
 	w.mu.Lock()
 	var on, off []phase0.ValidatorIndex
@@ -651,7 +790,7 @@ func (rn *run) worldSetChange() {
 	line := "SET-CHANGE spurious (no change)"
 	add := len(off) > 0 && (len(on) == 0 || rn.rng.Intn(2) == 0)
 	switch {
-	case rn.rng.Intn(10) == 0:
+	case !scripted && rn.rng.Intn(10) == 0:
 	case add:
 		v := off[rn.rng.Intn(len(off))]
 		w.active[v], w.ever[v] = true, true
@@ -662,7 +801,7 @@ func (rn *run) worldSetChange() {
 		w.active[v] = false
 		line = fmt.Sprintf("SET-CHANGE validator %d removed", v)
 	}
-	notify := rn.rng.Intn(100) < 85
+	notify := scripted || rn.rng.Intn(100) < 85
 	if !notify {
 		line += " (no notice)"
 	}
@@ -676,9 +815,7 @@ func (rn *run) worldSetChange() {
 	}
 }
 
-func (rn *run) worldArmFail() {
-	r := role(rn.rng.Intn(3))
-	k := 1 + rn.rng.Intn(3)
+func (rn *run) worldArmFail(r role, k int) {
 	rn.w.mu.Lock()
 	rn.w.fail[r] = k
 	rn.cnt["fetch_failures_armed"] += int64(k)
@@ -686,24 +823,43 @@ func (rn *run) worldArmFail() {
 	rn.begin(evWorld, 0, rn.net.now.Load(), false, fmt.Sprintf("ARM-FAIL next %d %s fetches fail", k, roleName[r]))
 }
 
+func (rn *run) scripted(pl *plan) {
+	switch pl.Kind {
+	case "reorg-previous":
+		rn.worldReorg(1)
+	case "reorg-current":
+		rn.worldReorg(0)
+	default:
+		rn.worldSetChange(true)
+	}
+	rn.deliverPending(true, 1)
+	if pl.Fail > 0 {
+		for r := rAtt; r <= rSync; r++ {
+			rn.worldArmFail(r, pl.Fail)
+		}
+	}
+}
+
 // ---- one case ------------------------------------------------------------------------------------------------
 
 func runHandlers(c *evid.Case) {
 	rng := c.Rng
-	p := genParams(rng)
+	p := genParams(rng, c.Index)
 	net := &vnet{spe: p.SPE, epp: p.EPP, far: time.Now().Add(24 * time.Hour)}
 	w := newWorld(rng.Uint64(), net)
 	w.own, w.foreign = p.Own, p.Foreign
 	for _, v := range p.InitiallyActive {
 		w.active[v], w.ever[v] = true, true
 	}
-	rn := &run{c: c, rng: rng, p: p, w: w, net: net, seen: map[dispKey]int{}, inEvent: map[dispKey]int{}, reported: map[string]bool{}, cnt: map[string]int64{}}
+	rn := &run{c: c, rng: rng, p: p, w: w, net: net, seen: map[dispKey]int{}, inEvent: map[dispKey]int{}, reported: map[string]bool{}, cnt: map[string]int64{},
+		held: map[*fetchRec]bool{}, dropped: map[*fetchRec]cause{}}
 	w.note = func(s string) { rn.log = append(rn.log, "      "+s) }
 	c.Journal("handlers case %d params %+v", c.Index, p)
 
 	ctx, cancel := context.WithCancel(context.Background())
 	defer cancel()
 	store := dutystore.New()
+	rn.store = store
 	hh := [3]handler{duties.NewAttesterHandler(store.Attester), duties.NewProposerHandler(store.Proposer), duties.NewSyncCommitteeHandler(store.SyncCommittee)}
 	netCfg := networkconfig.NetworkConfig{Name: "c16-virtual", Beacon: net}
 	bn, vc := &fakeBN{w}, &fakeVC{w}
@@ -763,6 +919,9 @@ func runHandlers(c *evid.Case) {
 			items = append(items, item{kind: 4})
 		}
 		rng.Shuffle(len(items), func(i, j int) { items[i], items[j] = items[j], items[i] })
+		if p.Plan != nil && p.Plan.Slot == s && !p.Plan.AfterTick {
+			rn.scripted(p.Plan)
+		}
 		rn.deliverPending(false, 0.5) // notices carried over from the previous slot may arrive before anything else
 		for _, it := range items {
 			switch it.kind {
@@ -775,16 +934,19 @@ func runHandlers(c *evid.Case) {
 			case 1:
 				rn.deliverTick(it.h, it.slot)
 			case 2:
-				rn.worldReorg()
+				rn.worldReorg(-1)
 			case 3:
-				rn.worldSetChange()
+				rn.worldSetChange(false)
 			case 4:
-				rn.worldArmFail()
+				rn.worldArmFail(role(rng.Intn(3)), 1+rng.Intn(3))
 			}
 			rn.deliverPending(false, 0.6)
 			if rn.dead {
 				break
 			}
+		}
+		if p.Plan != nil && p.Plan.Slot == s && p.Plan.AfterTick {
+			rn.scripted(p.Plan)
 		}
 		// end of the slot: the remaining notices are delivered now, unless this case lets some of them cross the clock advance
 		if !(p.AllowStale && rng.Intn(4) == 0) {
@@ -819,6 +981,9 @@ func runHandlers(c *evid.Case) {
 		c.Count("fetch_failures_consumed_"+roleName[r], w.nFetchFail[r])
 	}
 	c.Count("events", int64(w.curEvent))
+	if p.Plan != nil {
+		c.Count("scripted_cases", 1)
+	}
 	c.Count("duties_dispatched", dispatched)
 	c.Max("max_events_per_case", int64(w.curEvent))
 	if rn.dead {
